@@ -433,6 +433,8 @@ def point_sets(rng, d, deep):
     sets.append(("clusters", cl))
     sets.append(("random", rng.rand(d, n) * per))
     if deep:
+        big = {1: 120, 2: 12, 3: 6, 4: 4}[d]
+        sets.append(("big-lattice", np.array(list(itertools.product(range(big), repeat=d)), dtype=float).T * 0.7))
         sets.append(("fine-lattice", grid / 4))
         sets.append(("line", np.outer(np.ones(d) / math.sqrt(d), np.linspace(0, 3, 50))))
     return sets
